@@ -17,7 +17,7 @@ RULE = ("all lists of 1-3 well-formed single-channel sequences (note sets over a
 ASSUMPTIONS = ["mido's byte-level reading/writing is trusted", "channels are not compared (the writer emits channel 0)",
                "total duration / trailing rests are not part of the statement"]
 REQUIRED_FLAGS = ["leading_rest", "simultaneous_events", "abutting_repeat", "signature_after_tick_0", "all_fifteen_keys",
-                  "program_change", "three_sequences", "default_signature_inserted", "signature_on_non_first_sequence"]
+                  "program_change", "control_change", "three_sequences", "default_signature_inserted", "signature_on_non_first_sequence"]
 
 KEYS = ["C", "G", "D", "A", "E", "B", "F#", "C#", "F", "Bb", "Eb", "Ab", "Db", "Gb", "Cb"]
 TS = [(4, 4), (3, 4), (6, 8), (2, 2), (5, 8)]
@@ -40,6 +40,8 @@ SIGCFG = [
     [], [("ts", 0, 3, 4)], [("ts", 5, 3, 4)], [("ts", 0, 6, 8), ("ts", 10, 2, 2)], [("ks", 3, "G"), ("ts", 3, 5, 8)],
     [("ks", 0, "F#")], [("pc", 0, 5)], [("pc", 3, 5), ("ts", 5, 3, 4)], [("ts", 30, 3, 4)], [("ks", 10, "Cb"), ("ks", 30, "C")],
     [("ts", 0, 4, 4)], [("ts", 0, 4, 4), ("ts", 5, 4, 4)],
+    [("cc", 3, 64, 127)], [("cc", 0, 64, 100), ("ks", 5, "Bb"), ("cc", 10, 64, 0)], [("ks", 5, "E"), ("ts", 10, 2, 2), ("pc", 10, 3)],
+    [("ks", 3, "Ab")], [("ts", 3, 5, 8), ("ks", 10, "Db")],
 ]
 
 
@@ -166,6 +168,8 @@ def check_case(case, ctx):
         R.flags.append("abutting_repeat")
     if any(e[0] == "pc" for s in seqs for e in s["events"]):
         R.flags.append("program_change")
+    if any(e[0] == "cc" for s in seqs for e in s["events"]):
+        R.flags.append("control_change")
     if len(seqs) == 3:
         R.flags.append("three_sequences")
     if not any(e[0] == "ts" and e[1] == 0 for e in all_sig):
